@@ -126,10 +126,18 @@ def run(rep, tier, seed, judge=judge_c08, prop_filter=None):
                                'signature': None, 'all': bad[:5]},
                               replay={'kind': 'equalizer', 'scenario': x, 'keep': keep, 'abandon': abandon})
     rep.exhaustive = False
+    # direction B: the repository's equalizer tests with *real* worker processes under the guarded parent-side hooks
+    from .. import suitetrace
+    events, tail = suitetrace.run_tests(['tests/studio/test_equalizer.py'])
+    rep.extra['suite_run'] = tail
+    suitetrace.validate(rep, 'tests/studio/test_equalizer.py (real processes)', 'EqualizerTrace', suitetrace.equalizer_traces(events))
 
 
 def replay(rep, body, judge=judge_c08):
     rp = body['replay']
+    if rp.get('kind') == 'suite-trace':
+        from .. import suitetrace
+        return suitetrace.replay_trace(body)
     x, keep, abandon, res, inproc = _run((rp['scenario'], rp['keep'], rp['abandon']))
     print('observed:', res['out'], 'violations:', res['violations'], 'served:', res['served'], 'waits:', res['waits'])
     bad = judge(x, keep, res, inproc)
